@@ -101,7 +101,27 @@ def c14_2(cx):
             cx.check(r not in b.reachable(0, "normal", cut_edges=eng.establishing_edges(others), cut_blocks=dead), "a value/verdict is returned only for Fixpoint / FallbackImmediate", Site(b, r, 0), key="ret-only-recovering")
 
 
-@ob("C14.3", ["C14", "C16", "C17"], "a Running result that is not waited for and retried (or a Cycle result that executes anyway) hangs or re-enters the running function", kind="TABLE")
+@ob("C14.4", ["C14", "C13", "C12", "C01"], "a cycle hit while VALIDATING an old memo means the cycle is new in this revision: answering `unchanged` validates a memo computed when there was no cycle (its value ignores the fallback / fixpoint)", kind="FLOW (verdict table)")
+def c14_4(cx):
+    """maybe_changed_after_cold_cycle: every value returned (for Fixpoint and FallbackImmediate alike) is VerifyResult::changed(); maybe_changed_after_cold::inner maps ClaimResult::Cycle to that verdict."""
+    b = cx.fn(r"^function::maybe_changed_after::maybe_changed_after_cold_cycle$")
+    dead = cx.facts.dead_end_blocks(b)
+    from .c01_reuse import value_defs
+    n = 0
+    for site, kind, node in value_defs(b, 0):
+        if site.bb in dead:
+            continue
+        n += 1
+        o = b._origin_def(site, kind, node, 0, None, ())
+        cx.flow(b, o, [r"^function::maybe_changed_after::VerifyResult::changed\(\)$", r"^VerifyResult::Changed\{\}$"], [r"unchanged", r"Unchanged"], "a new cycle met during validation is reported as Changed", site)
+    cx.require(n >= 1, "verdict of maybe_changed_after_cold_cycle")
+    i = cx.fn(r"^function::maybe_changed_after::<impl function::IngredientImpl<C>>::maybe_changed_after_cold::inner$")
+    cc = cx.one_call(i, r"maybe_changed_after_cold_cycle$", "cycle verdict in maybe_changed_after_cold::inner")
+    cx.only_if(i, cc, VariantIn(r"SyncTable::try_claim\(", {"Cycle"}, desc="try_claim == Cycle"), "the cycle verdict is used exactly for ClaimResult::Cycle")
+    cx.flow(i, cx.arg(cc, 2), [r"CYCLE_STRATEGY|^\$\d+$"], [r"CycleRecoveryStrategy::(Fixpoint|Panic|FallbackImmediate)\{"], "with the function's own strategy", cc)
+
+
+@ob("C14.3", ["C14", "C16", "C17"], also=["C03"], nec="a Running result that is not waited for and retried (or a Cycle result that executes anyway) hangs or re-enters the running function", kind="TABLE")
 def c14_3(cx):
     """fetch_cold and maybe_changed_after_cold::inner: Claimed -> verify/execute; Running -> block_on then retry (None / Retry); Cycle -> cycle handler. refresh_memo / maybe_changed_after loop until a result is produced. Running::block_on: Panicked -> Cancelled::PropagatedPanic.throw()."""
     f = cx.fn(r"^function::fetch::<impl function::IngredientImpl<C>>::fetch_cold$")
@@ -121,7 +141,9 @@ def c14_3(cx):
     bo = cx.one_call(i, r"^runtime::Running::<'_>::block_on$", "block_on in maybe_changed_after_cold::inner")
     cx.only_if(i, bo, VariantIn(claim, {"Running"}), "inner blocks exactly on ClaimResult::Running")
     reach = i.reachable(bo.node()["t"], "normal")
-    cx.check(all(s.bb not in reach for s in i.aggregates(r"ColdResult$", "Verified") + i.aggregates(r"ColdResult$", "Reexecute")) and any(s.bb in reach for s in i.aggregates(r"ColdResult$", "Retry")), "after waiting inner returns Retry", bo, key="retry-after-block-mca")
+    with cx.only("C14", "C16", "C17", "C03"):
+        # answering Changed after the wait (instead of retrying) discards the backdating done by the other thread (C03)
+        cx.check(all(s.bb not in reach for s in i.aggregates(r"ColdResult$", "Verified") + i.aggregates(r"ColdResult$", "Reexecute")) and any(s.bb in reach for s in i.aggregates(r"ColdResult$", "Retry")), "after waiting inner returns Retry", bo, key="retry-after-block-mca")
     cyc = cx.one_call(i, r"maybe_changed_after_cold_cycle$", "cycle handler in inner")
     cx.only_if(i, cyc, VariantIn(claim, {"Cycle"}), "the cycle handler runs exactly on ClaimResult::Cycle")
     r = cx.fn(r"^function::fetch::<impl function::IngredientImpl<C>>::refresh_memo$")
@@ -376,7 +398,7 @@ def c17_3(cx):
 # C18
 
 
-@ob("C18.1", ["C18"], "a cycle participant that releases its lock lets another thread enter the same cycle from a different head: two threads iterate competing copies", kind="MUSTCALL+FLOW")
+@ob("C18.1", ["C18", "C13"], "a cycle participant that releases its lock lets another thread enter the same cycle from a different head: two threads iterate competing copies", kind="MUSTCALL+FLOW")
 def c18_1(cx):
     """complete_cycle_participant and the nested branch of try_complete_cycle_head set ReleaseMode::TransferTo(outer_cycle); execute_maybe_iterate starts with ReleaseMode::Default."""
     p = cx.fn(r"^function::execute::complete_cycle_participant$")
@@ -398,6 +420,10 @@ def c18_1(cx):
     cx.flow(m, cx.arg(c, 1), [r"^ReleaseMode::Default\{\}$"], [r"TransferTo|SelfOnly"], "execute_maybe_iterate starts with ReleaseMode::Default", c)
     ex = cx.some_calls(m, r"execute_query$", 1, "execute_query in execute_maybe_iterate")[0]
     cx.order(c, ex, "the release mode is reset before the body runs")
+    # ... and never again afterwards: a participant (of either cycle strategy) that resets the mode chosen by
+    # complete_cycle_participant / try_complete_cycle_head releases its lock while the outer head still runs
+    for rs in m.calls(SY + r"ClaimGuard::<'me>::set_release_mode$"):
+        cx.check(not m.reaches(ex, rs), "the release mode chosen when the query completes (TransferTo for participants) is not overridden in execute_maybe_iterate", rs, key="no-late-reset")
     s = cx.fn(SY + r"ClaimGuard::<'me>::set_release_mode$")
     st = cx.stores(s, r"^\$1\.mode$")
     cx.sites(st, 1, "store to mode")
